@@ -177,15 +177,84 @@ class Side:
         raise TranslatorGap(f"unrecognised encode expression: {ast.unparse(node)[:100]}")
 
     def check_wav_duration(self):
+        """`_determine_wav_duration` as a decision tree, whatever its nesting / early returns: the explicit
+        duration when there is one (`is None` test, so 0 counts as explicit); otherwise the duration of the
+        metadata looked up by the action's path; ValueError when there is no lookup or no metadata"""
         r = find_method(self.mod, self.cls, "_determine_wav_duration")
-        src = ast.unparse(r[2])
-        for need in [r"if (\w+)\.duration_ms is None:", r"if not \w+\.wav_metadata_lookup:", r"raise ValueError",
-                     r"get_metadata_by_wav_path\(\w+\.path_to_wav_in_mpq\)", r"if not (\w+):\s+[^\n]*\n(?:[^\n]*\n)*?\s*return \1\.duration_ms|if not (\w+):",
-                     r"return \w+\.duration_ms"]:
-            if not re.search(need, src):
-                raise TranslatorGap(f"_determine_wav_duration lacks the shape `{need}`")
-        if len(re.findall(r"return \w+\.duration_ms", src)) < 2:
-            raise TranslatorGap("_determine_wav_duration: expected a return of the explicit duration and one of the metadata's duration")
+        fn = r[2]
+        params = [a.arg for a in fn.args.args if a.arg not in ("self", "cls")]
+        if len(params) != 2:
+            raise TranslatorGap("_determine_wav_duration: expected (action, context)")
+        act, ctx = params
+        binds = {}
+
+        def test_of(t, pol=True):
+            if isinstance(t, ast.UnaryOp) and isinstance(t.op, ast.Not):
+                return test_of(t.operand, not pol)
+            if isinstance(t, ast.Compare) and len(t.ops) == 1 and isinstance(t.comparators[0], ast.Constant) and t.comparators[0].value is None:
+                if isinstance(t.ops[0], ast.Is):
+                    return ("isnone", ast.unparse(t.left), pol)
+                if isinstance(t.ops[0], ast.IsNot):
+                    return ("isnone", ast.unparse(t.left), not pol)
+            if isinstance(t, (ast.Name, ast.Attribute)):
+                return ("truthy", ast.unparse(t), pol)
+            raise TranslatorGap(f"_determine_wav_duration: unsupported test `{ast.unparse(t)[:60]}`")
+
+        paths = []
+
+        def walk(stmts, conds):
+            """returns True when every path through stmts ended in return / raise"""
+            for i, st in enumerate(stmts):
+                if isinstance(st, ast.Expr) and isinstance(st.value, ast.Constant):
+                    continue
+                if isinstance(st, ast.Expr) and isinstance(st.value, ast.Call) and "log" in ast.unparse(st.value.func).lower():
+                    continue
+                if isinstance(st, (ast.Assign, ast.AnnAssign)):
+                    tgt = st.targets[0] if isinstance(st, ast.Assign) else st.target
+                    if not isinstance(tgt, ast.Name) or st.value is None:
+                        raise TranslatorGap("_determine_wav_duration: unsupported assignment")
+                    binds[tgt.id] = ast.unparse(st.value)
+                    continue
+                if isinstance(st, ast.Return):
+                    paths.append((frozenset(conds), ("return", ast.unparse(st.value))))
+                    return True
+                if isinstance(st, ast.Raise):
+                    exc = st.exc.func if isinstance(st.exc, ast.Call) else st.exc
+                    paths.append((frozenset(conds), ("raise", ast.unparse(exc))))
+                    return True
+                if isinstance(st, ast.If):
+                    k, e, pol = test_of(st.test)
+                    rest = stmts[i + 1:]
+                    done_t = walk(st.body, conds + [(k, e, pol)])
+                    if not done_t:
+                        done_t = walk(rest, conds + [(k, e, pol)])
+                    done_f = walk(st.orelse, conds + [(k, e, not pol)]) if st.orelse else False
+                    if not done_f:
+                        done_f = walk(rest, conds + [(k, e, not pol)])
+                    if not (done_t and done_f):
+                        raise TranslatorGap("_determine_wav_duration: a path ends without return / raise")
+                    return True
+                raise TranslatorGap(f"_determine_wav_duration: unsupported statement `{ast.unparse(st)[:60]}`")
+            return False
+
+        if not walk(fn.body, []):
+            raise TranslatorGap("_determine_wav_duration: a path ends without return / raise")
+        dur = f"{act}.duration_ms"
+        lookup = f"{ctx}.wav_metadata_lookup"
+        metas = [v for v, e in binds.items() if e.replace(" ", "").replace("\n", "") == f"{lookup}.get_metadata_by_wav_path({act}.path_to_wav_in_mpq)"]
+        if len(metas) != 1:
+            raise TranslatorGap("_determine_wav_duration: the metadata is not looked up by the action's path")
+        m = metas[0]
+        none = ("isnone", dur, True)
+        want = {
+            (frozenset([("isnone", dur, False)]), ("return", dur)),
+            (frozenset([none, ("truthy", lookup, False)]), ("raise", "ValueError")),
+            (frozenset([none, ("truthy", lookup, True), ("truthy", m, False)]), ("raise", "ValueError")),
+            (frozenset([none, ("truthy", lookup, True), ("truthy", m, True)]), ("return", f"{m}.duration_ms")),
+        }
+        if set(paths) != want:
+            raise TranslatorGap("_determine_wav_duration: decision tree differs from (explicit duration | metadata duration | ValueError): %s" % sorted((sorted(c), o) for c, o in set(paths) ^ want)[:2])
+
 
 def model_id(mod, cls, kind):
     """(model class name, enum member, number)"""
